@@ -87,6 +87,7 @@ func (e *Exec) callsiteChecks(st *State, fn *types.Func, recv *Val, args []Val, 
 			st.ghosts["called:"+tracked] = Val{T: True}
 		}
 	}
+	var tracks []trackUpd
 	for _, c := range fc.Sites {
 		if c.LoopKey != key && c.LoopKey != shortName(pkgPath)+"."+key {
 			continue
@@ -103,6 +104,10 @@ func (e *Exec) callsiteChecks(st *State, fn *types.Func, recv *Val, args []Val, 
 			extra["arg_recv"] = *recv
 		}
 		env := e.loopEnv(st, x.Pos(), extra)
+		if c.Kind == "track" {
+			tracks = append(tracks, trackUpd{c, env})
+			continue
+		}
 		g := e.evContract(st, c.Expr, env)
 		name := fmt.Sprintf("%s#callsite:%s.%s@%s", e.fnName, strings.TrimPrefix(c.LoopKey, "*"), c.Name, e.relLine(x.Pos()))
 		o := e.oblige(st, name, "callsite", c.Props, g, x.Pos())
@@ -110,4 +115,34 @@ func (e *Exec) callsiteChecks(st *State, fn *types.Func, recv *Val, args []Val, 
 			o.Clause = c.Src
 		}
 	}
+	// tracked ghosts are assigned after the assertions of this call have been evaluated
+	for _, t := range tracks {
+		e.inContract++
+		v := e.cev(st, t.c.Expr, t.env)
+		e.inContract--
+		st.ghosts["g:"+t.c.Name] = v
+	}
+}
+
+type trackUpd struct {
+	c   *Clause
+	env *cenv
+}
+
+// trackedGhost resolves a ghost variable declared by a `track` clause (its entry value is arbitrary).
+func (e *Exec) trackedGhost(st *State, name string) (Val, bool) {
+	if g, ok := st.ghosts["g:"+name]; ok {
+		return g, true
+	}
+	fc := e.frames[0].contract
+	if fc == nil {
+		return Val{}, false
+	}
+	for _, c := range fc.Sites {
+		if c.Kind == "track" && c.Name == name {
+			t := e.resolveTypeStr(&cenv{vals: map[string]Val{}, pkgPath: fc.Pkg}, c.Region)
+			return Val{T: e.sc.Const("ghost0:"+name, e.sr.sortOf(t)), GT: t}, true
+		}
+	}
+	return Val{}, false
 }
